@@ -47,7 +47,7 @@ func init() {
 			"plain and gzipped tiles); engine 'enum' applies EVERY single fault of one drawn kind to that blob (every truncation point; every single-bit flip for blobs <= 256 B; every boundary word at every offset in both byte orders; " +
 			"every byte_set value at every offset) and reads each damaged blob back through every decoder of its family; engine 'stack' applies 1-3 stacked sampled faults of all kinds (plus range zero/dup/drop, splices from another blob, " +
 			"garbage sectors, WKT token faults, misdirected reads, stream faults on top); engine 'hostile' feeds well-framed but semantically hostile inputs (tiles built from the wire structs with nonsense command streams / tag indices / value messages, JSON and BSON documents with one node replaced, removed or renamed, deep nesting, gzip bombs and truncated gzip); engine 'small' samples the small finite spaces the property names. " +
-			"A case is one run (value x encoding x fault kind); distinct = distinct event-log digest; non-trivial = at least one storage fault was applied and decoded.",
+			"A third of the runs keep their scanners and JSON/BSON receivers for the whole run (every damaged blob goes through the same objects) instead of fresh ones per input. A case is one run (value x encoding x fault kind); distinct = distinct event-log digest; non-trivial = at least one storage fault was applied and decoded.",
 		StateDef: "distinct (family, encoding, fault kind, value shape) tuples; plus measured coverage of the small spaces (see small_spaces)",
 		Engines: []props.Engine{
 			{Name: "enum", Variant: "plain", Run: RunEnum, QuickRuns: 12000, Share: 0.4, MinThorough: 60000, RunTimeout: 30 * time.Second},
